@@ -104,7 +104,13 @@ def make_scenario(rng, seed):
             args += ["--chunk-delay", str(rng.choice((0, 1, 5, 20)))]
         args += ["--sleep-before", str(rng.choice((0, 0, 10, 40)))]
         fail = rng.random() < 0.15
-        if fail:
+        if fail and not console and rng.random() < 0.35:
+            # ... or the command's process is ended by a signal (a crashing tool, the OOM killer): an ordinary failure with code
+            # 128+N for ninja, reported like any other, and nothing that concerns the rest of the build.  The tool takes the
+            # place of the shell ninja spawned ('exec'), so that it is that process which dies by the signal.
+            args += ["--kill-self", str(rng.choice((9, 11, 6, 13, 7, 10)))]
+            st["shell_prefix"] = "exec "
+        elif fail:
             args += ["--exit", str(rng.choice((1, 2, 3, 42)))]
         if rng.random() < 0.2:
             st["restat"] = True
